@@ -4,7 +4,12 @@
 patch=$1; shift
 cd /repo || exit 2
 if ! git diff --quiet; then echo "/repo is dirty"; exit 2; fi
-git apply "$patch" || { echo "PATCH DOES NOT APPLY: $patch"; exit 3; }
+if ! git apply "$patch" 2>/dev/null; then
+	# The tree has moved since the seed was made: retry with fuzz.
+	patch -p1 -s -F3 --no-backup-if-mismatch < "$patch" || { git checkout -- . ; git clean -fdq; echo "PATCH DOES NOT APPLY: $patch"; exit 3; }
+	export GOFLAGS=-mod=mod GOPROXY=off GOSUMDB=off GOTOOLCHAIN=local
+	go build ./... || { git checkout -- . ; git clean -fdq; echo "PATCHED TREE DOES NOT BUILD"; exit 3; }
+fi
 for id in "$@"; do
 	out=$(CRS_NOSELFTEST=1 /verif/check "$id" quick 2>&1); st=$?
 	echo "== $id exit=$st"
